@@ -9,12 +9,12 @@ ID = 'C13'
 LEVEL = 'other'
 TUS = ['src/engine/engine_collision_primitive.c', 'src/engine/engine_util_blas.c', 'src/engine/engine_util_misc.c', 'src/engine/engine_util_spatial.c']
 SUP = ['src/engine/engine_util_blas.c', 'src/engine/engine_util_misc.c', 'src/engine/engine_util_spatial.c', 'src/engine/engine_util_errmem.c']
-EXPLANATION = ('llsym (real-algebraic: sqrt(x) is the unique t >= 0 with t^2 = x) runs the real mjraw_PlaneSphere, mjraw_SphereSphere, mjraw_SphereCapsule, mjc_PlaneCapsule and mju_makeFrame with symbolic positions, unit axes, '
+EXPLANATION = ('llsym (real-algebraic: sqrt(x) is the unique t >= 0 with t^2 = x) runs the real mjraw_PlaneSphere, mjraw_SphereSphere, mjraw_SphereCapsule, mjc_PlaneCapsule, mjc_SphereCylinder (dispatch to its two delegates) and mju_makeFrame with symbolic positions, unit axes, '
                'radii, half-lengths and margin. For every returned contact z3 must show: dist equals the true signed distance (plane-sphere n.(c-p)-r; sphere-sphere |c2-c1|-r1-r2; sphere-capsule: minimum over the whole segment, '
                'stated with a universally quantified segment parameter), dist <= margin, and a pair is dropped only if its true distance exceeds the margin; the normal is a unit vector pointing from the first geom to the second; '
                'pos is the midpoint between the two surface points; and mju_makeFrame turns ANY normal / tangent pair a collider can produce into an orthonormal right-handed frame whose first row is the normalised normal.')
-BOUNDS = {'quick': {'pairs': 'plane-sphere, sphere-sphere, sphere-capsule, plane-capsule', 'frame': 'any normal with |n| >= 1/2 and any tangent'}, 'thorough': {'same': 'plus plane-capsule with both end points in contact'}}
-OUTSIDE = ('box, cylinder, ellipsoid, mesh, height-field and SDF pairs; capsule-capsule (unit_capsule_capsule is written - both points on their segments, no closer pair over two universally quantified segment parameters - but exploration plus the optimality query did not finish within 20 minutes, so it is not registered); mj_geomDistance (GJK); contact assembly in mj_collideGeoms beyond the frame (condim, friction mixing); '
+BOUNDS = {'quick': {'pairs': 'plane-sphere, sphere-sphere, sphere-capsule, plane-capsule, sphere-cylinder (cylinder axis +z and -y, dispatch and delegate arguments)', 'frame': 'any normal with |n| >= 1/2 and any tangent'}, 'thorough': {'same': 'plus plane-capsule with both end points in contact'}}
+OUTSIDE = ('box, ellipsoid, other cylinder pairs, sphere-cylinder with a cylinder axis that is not a coordinate axis, mesh, height-field and SDF pairs; capsule-capsule (unit_capsule_capsule is written - both points on their segments, no closer pair over two universally quantified segment parameters - but exploration plus the optimality query did not finish within 20 minutes, so it is not registered); mj_geomDistance (GJK); contact assembly in mj_collideGeoms beyond the frame (condim, friction mixing); '
            'floating-point rounding (near-parallel normal/tangent pairs are decided in exact arithmetic).')
 ASSUMPTIONS = ['real-number semantics', 'plane normal and capsule axis are unit vectors (columns of rotation matrices)', 'radii and half-lengths positive, margin >= 0', 'mju_message(ERROR) does not return']
 BUDGET = {'quick': 600, 'thorough': 1500}
@@ -299,8 +299,95 @@ def unit_frame(tier, source, part=0, nparts=1):
     return ck
 
 
+def unit_sphere_cylinder(tier, axis=(0, 0, 1)):
+    """sphere-cylinder dispatches to sphere-sphere (side, corner) or plane-sphere (caps): which feature it picks and what it hands over is checked here against the geometry of a solid
+    cylinder restated independently (nearest feature of the cylinder to the sphere centre); the two delegates are checked in their own units"""
+    ck = Checker('sphere_cylinder_%s' % '_'.join(str(t) for t in axis), tier, timeout_s=200, semantics='real')
+    L = lay(); P = Pair(); w = P.w
+    M = W.SB(w, L, 'mjModel_', 'm'); D = W.SB(w, L, 'mjData_', 'd')
+    go, gs = M.arr('geom_size', 'f64', 6, name='gsize'); xo, xp = D.arr('geom_xpos', 'f64', 6, name='gxpos'); mo, xm = D.arr('geom_xmat', 'f64', 18, name='gxmat')
+    # the cylinder axis is a concrete signed coordinate axis (exactly representable unit vectors; a symbolic unit axis does not finish within 600 s), everything else is symbolic
+    ax_o, a = [9 + 2, 9 + 5, 9 + 8], [z3.RealVal(str(fractions.Fraction(t))) for t in axis]
+    for o_, v_ in zip(ax_o, axis): mo.put(8 * o_, 'f64', float(fractions.Fraction(v_)))
+    c = xp[0:3]; p2 = xp[3:6]; r1 = gs[0]; R = gs[3]; h = gs[4]
+    pre = [r1 > 0, R > 0, h > 0, P.margin >= 0]
+    calls = []
+    ld3 = lambda ex, st, ptr, n=3: [ex.load(st, llsym.Ptr(ptr.obj, ptr.off + 8 * i), FpT('double')) for i in range(n)]
+    def ss_stub(ex, st, args, ins):
+        k = len(calls); ret = z3.BitVec('ss_ret%d' % k, 32)
+        calls.append(dict(kind='ss', con=args[0], margin=args[1], pos1=args[2], mat1=args[3], size1=args[4], c2=ld3(ex, st, args[5]), mat2=args[6], r2=ld3(ex, st, args[7], 1)[0], ret=ret)); st.aux['delegate'] = k
+        return ret
+    def ps_stub(ex, st, args, ins):
+        k = len(calls); ret = z3.BitVec('ps_ret%d' % k, 32)
+        nn = [z3.Real('ps_normal%d_%d' % (k, i)) for i in range(3)]
+        for i in range(3): ex.store(st, llsym.Ptr(args[0].obj, args[0].off + P.off['normal'] + 8 * i), FpT('double'), nn[i])
+        calls.append(dict(kind='ps', con=args[0], margin=args[1], ppos=ld3(ex, st, args[2]), pmat=ld3(ex, st, args[3], 9), spos=args[5], smat=args[6], ssize=args[7], ret=ret, nn=nn)); st.aux['delegate'] = k
+        return ret
+    ex = llsym.Exec(mod(), fpmode='real', loop_bound=8, stubs={'mjraw_SphereSphere': ss_stub, 'mjraw_PlaneSphere': ps_stub}); ex.unknown_is_feasible = True; ex.feasibility_timeout_s = 2
+    st = w.to_state(ex); st.pc += pre
+    I = lambda v: z3.BitVecVal(v, 32)
+    res = ex.run('@mjc_SphereCylinder', [w.P(M.o), w.P(D.o), w.P(P.co), I(0), I(1), P.margin], st); ck.note_results(ex, res)
+    nargs = [('ptr', (M.o, 0)), ('ptr', (D.o, 0)), ('ptr', (P.co, 0)), ('i32', 0), ('i32', 1), ('f64', P.margin)]
+    names = {'sphere_pos': c, 'sphere_radius': [r1], 'cylinder_pos': p2, 'cylinder_axis': a, 'cylinder_radius': [R], 'cylinder_halfheight': [h]}
+    dec = lambda mdl: dict({k: [str(W.evalnum(mdl, x)) for x in v] for k, v in names.items()}, margin=str(W.evalnum(mdl, P.margin)))
+    v = sub(c, p2); x = dot(a, v); pp = [v[i] - x * a[i] for i in range(3)]; rho2 = dot(pp, pp)
+    ax_ = z3.If(x >= 0, x, -x); sg = z3.If(x > 0, z3.RealVal(1), z3.RealVal(-1))
+    inside_h = ax_ < h; inside_r = rho2 < R * R
+    gap = R - (h - ax_)           # cap nearer than side  <=>  rho < R - (h - |x|)
+    cap_nearer = z3.And(gap > 0, rho2 < gap * gap); side_strict = z3.Or(gap < 0, rho2 > gap * gap)
+    def rp(model, witness):
+        """native run of the real collider (real delegates) against the signed distance of a point to a solid cylinder"""
+        import math
+        vals = w.concretise(model)
+        status = W.native_call(so(), 'mjc_SphereCylinder', w, vals, nargs, restype='i32', outputs=[('dist', P.co, P.off['dist'], 'f64')] + [('n%d' % i, P.co, P.off['normal'] + 8 * i, 'f64') for i in range(3)])
+        if status[0] != 'ok': return False, {'native': str(status)[:200]}
+        g = lambda xs: [float(W.evalnum(model, t)) for t in xs]
+        C, P2, A = g(c), g(p2), g(a); R1, RR, HH, MG = [float(W.evalnum(model, t)) for t in (r1, R, h, P.margin)]
+        V = [C[i] - P2[i] for i in range(3)]; X = sum(A[i] * V[i] for i in range(3)); RHO = math.sqrt(max(0.0, sum((V[i] - X * A[i]) ** 2 for i in range(3))))
+        dx = abs(X) - HH; dr = RHO - RR
+        sd = math.hypot(max(dx, 0.0), max(dr, 0.0)) if (dx > 0 or dr > 0) else max(dx, dr)
+        true = sd - R1; ret = status[1]['ret']; dist = status[1]['out']['dist']
+        bad = False
+        if abs(true - MG) > 1e-9 and (ret == 1) != (true <= MG): bad = True
+        if ret == 1 and abs(dist - true) > 1e-9 * max(1.0, abs(true)): bad = True
+        return bad, {'native_ret': ret, 'native_dist': dist, 'true_distance': true, 'margin': MG, 'x': X, 'rho': RHO}
+    nret = 0
+    for rr in res:
+        if rr.kind != 'return': continue
+        nret += 1; pc = rr.state.pc
+        k = rr.state.aux.get('delegate')
+        if k is None: ck.error('a path returns without a delegate call'); continue
+        cl = calls[k]
+        same = lambda ptr, o, off=0: isinstance(ptr, llsym.Ptr) and ptr.obj == w.map[o].obj and ptr.off == off
+        if cl['kind'] == 'ps':
+            ok_ptrs = same(cl['con'], P.co) and same(cl['spos'], xo) and same(cl['smat'], mo)
+            sgn = z3.If(x > 0, z3.RealVal(1), z3.RealVal(-1))
+            nrm = [cl['pmat'][2], cl['pmat'][5], cl['pmat'][8]]
+            ck.prove('cap contact: only chosen when the sphere centre is over a cap (inside the radius) and, when it is inside the cylinder, the cap is not farther than the side', pc,
+                     z3.And(inside_r, z3.Implies(inside_h, z3.Not(side_strict))),
+                     site='mjc_SphereCylinder:cap-choice', decode=dec, replay=rp)
+            ck.prove('cap contact: the plane handed to plane-sphere is the cap on the sphere\'s side of the cylinder (centre pos + sign(x) * height * axis, outward normal sign(x) * axis), with the sphere, margin and buffer unchanged', pc + [x != 0],
+                     z3.And(z3.BoolVal(ok_ptrs), cl['margin'] == P.margin, *([cl['ppos'][i] == p2[i] + sgn * h * a[i] for i in range(3)] + [nrm[i] == sgn * a[i] for i in range(3)])), site='mjc_SphereCylinder:cap-args', decode=dec, replay=rp)
+            nout = [ex.load(rr.state, w.P(P.co, P.off['normal'] + 8 * i), FpT('double')) for i in range(3)]
+            ck.prove('cap contact: the count of plane-sphere is returned and its normal is reversed (sphere is the first geom)', pc, z3.And(rr.value == cl['ret'], z3.Implies(cl['ret'] != 0, z3.And(*[nout[i] == -cl['nn'][i] for i in range(3)]))),
+                     site='mjc_SphereCylinder:cap-flip', decode=dec, replay=rp)
+        else:
+            ok_ptrs = same(cl['con'], P.co) and same(cl['pos1'], xo) and same(cl['mat1'], mo) and same(cl['size1'], go)
+            q = cl['c2']; wv = [q[i] - p2[i] - sg * h * a[i] for i in range(3)]; cr = cross(wv, pp)
+            side = z3.And(cl['r2'] == R, *[q[i] == p2[i] + x * a[i] for i in range(3)])
+            corner = z3.And(cl['r2'] == 0, dot(wv, wv) == R * R, dot(wv, pp) >= 0, *[cr[i] == 0 for i in range(3)])
+            ck.prove('sphere-sphere delegate: next to the side (|x| < height) the second sphere is the axis point at the same height with the cylinder radius; beyond a cap and outside the radius it is the '
+                     'point of the rim nearest to the sphere centre with zero radius', pc, z3.And(z3.BoolVal(ok_ptrs), cl['margin'] == P.margin, rr.value == cl['ret'], z3.If(inside_h, side, z3.And(z3.Not(inside_r), corner))),
+                     site='mjc_SphereCylinder:side-corner-args', decode=dec, replay=rp)
+            ck.prove('side contact with the sphere centre inside the cylinder: only when the side is not farther than the nearer cap', pc + [inside_h, inside_r], z3.Not(z3.And(cap_nearer)), site='mjc_SphereCylinder:side-choice', decode=dec, replay=rp)
+    if nret < 4: ck.error('expected at least 4 returning paths (side, cap top/bottom, corner), got %d' % nret)
+    ck.paths['sphere_cylinder'] = nret
+    ck.reach('sphere centre inside the cylinder, nearer to the bottom cap', pre + [inside_h, inside_r, cap_nearer, x < 0]); ck.memory_obligations(res, decode=dec)
+    return ck
+
+
 def units(tier):
-    u = [('plane_sphere', 'unit_plane_sphere', {}), ('sphere_sphere', 'unit_sphere_sphere', {}), ('sphere_capsule', 'unit_sphere_capsule', {}), ('plane_capsule', 'unit_plane_capsule', {})]
+    u = [('plane_sphere', 'unit_plane_sphere', {}), ('sphere_sphere', 'unit_sphere_sphere', {}), ('sphere_capsule', 'unit_sphere_capsule', {}), ('plane_capsule', 'unit_plane_capsule', {}), ('sphere_cylinder_0_0_1', 'unit_sphere_cylinder', {'axis': (0, 0, 1)}), ('sphere_cylinder_0_-1_0', 'unit_sphere_cylinder', {'axis': (0, -1, 0)})]
     u += [('frame_zero', 'unit_frame', {'source': 'zero'})] + [('frame_free_p%d' % k, 'unit_frame', {'source': 'free', 'part': k, 'nparts': 7}) for k in range(7)]
     if tier != 'quick': u += [('frame_capsule_p%d' % k, 'unit_frame', {'source': 'capsule', 'part': k, 'nparts': 4}) for k in range(4)]
     return u
